@@ -146,6 +146,9 @@ class Check:
         self.cov.setdefault("evaluations", self.evals)
         self.cov.setdefault("distinct_nontrivial", len(self._distinct))
         self.cov["known_findings_hit"] = self.known_hit
+        _djc = sys.modules.get("vf.djc")
+        if _djc is not None and getattr(_djc.oracle, "timeouts", 0):
+            self.cov["oracle_timeouts_skipped"] = _djc.oracle.timeouts
         ev = {
             "property_id": self.pid,
             "tier": self.tier,
